@@ -515,6 +515,28 @@ pub fn sweep(thorough: bool, panic_only: bool) -> (u64, Vec<(String, String)>) {
             if bad.len() < 12 { bad.push(b); }
         }
     }
+    // histories of assignments: `A = 0 X` (a commodity set to zero) followed by a bare `A = 0` / an assertion on what is left (seed C03-n:
+    // a zero left behind in the running balance makes the account look multi-commodity)
+    for held_x in [None, Some(d("3"))] {
+        for last in [Post { account: "A", amount: None, cost: None, lot: None, assertion: Some((d("0"), None)) },
+                     Post { account: "A", amount: Some((d("-5"), "Y")), cost: None, lot: None, assertion: Some((d("0"), None)) },
+                     Post { account: "A", amount: None, cost: None, lot: None, assertion: Some((d("2"), Some("Y"))) }] {
+            let mut h: Vec<Txn> = vec![vec![
+                Post { account: "A", amount: Some((d("5"), "Y")), cost: None, lot: None, assertion: None },
+                Post { account: "E", amount: None, cost: None, lot: None, assertion: None }]];
+            if let Some(x) = held_x {
+                h.push(vec![Post { account: "A", amount: Some((x, "X")), cost: None, lot: None, assertion: None },
+                            Post { account: "E", amount: None, cost: None, lot: None, assertion: None }]);
+            }
+            h.push(vec![Post { account: "A", amount: None, cost: None, lot: None, assertion: Some((d("0"), Some("X"))) },
+                        Post { account: "E", amount: None, cost: None, lot: None, assertion: None }]);
+            h.push(vec![last.clone(), Post { account: "E", amount: None, cost: None, lot: None, assertion: None }]);
+            evaluated += 1;
+            if let Some(b) = check(&h, &[]).filter(|b| !panic_only || b.1.contains("panicked")) {
+                if bad.len() < 12 { bad.push(b); }
+            }
+        }
+    }
     // accounts reached through aliases: a ledger that spells an account by an alias declared in an `account` directive - wherever
     // the alias line stands among the directive's notes and comments - must behave exactly as the ledger that spells the
     // canonical name (same verdict, same final balances); assertions through the alias see the canonical account's balance
